@@ -117,7 +117,7 @@ func Read(p *parser.Parser, pos int64) (Table, error) {
 			endGlyphID := glyph.ID(data[2])<<8 | glyph.ID(data[3])
 			classValue := uint16(data[4])<<8 | uint16(data[5])
 
-			if i > 0 && startGlyphID <= prevEnd {
+			if endGlyphID < startGlyphID || i > 0 && startGlyphID <= prevEnd {
 				return nil, &parser.InvalidFontError{
 					SubSystem: "opentype/classdef",
 					Reason:    "overlapping ranges in class definition table",
